@@ -1850,4 +1850,249 @@ theorem all_step {D} (hD : DClosed D) (c : Cfg) (w : World) (op : Op) (h : AllIm
     exact this slots w h
   | bad => exact h
 
+/-! ### slots without an organisation are never occupied (apart from the scratch slot inside an operation) -/
+
+theorem ne_of_orgOf {c : Cfg} {s x : Nat} {o : Org} (h : c.orgOf s = some o) (hx : c.orgOf x = none) : x ≠ s := by
+  intro e; subst e; rw [h] at hx; cases hx
+
+theorem andThen_none (r : World × Outcome) (k : World → World × Outcome) (x : Nat) (hr : r.1.imgs x = none)
+    (hk : r.2 = .ok → (k r.1).1.imgs x = none) : (andThen r k).1.imgs x = none := by
+  unfold andThen
+  split
+  next h => exact hk h
+  next h => exact hr
+
+theorem swapWithTmp_imgs_other (c : Cfg) (o : Org) (r : World × Outcome) (s x : Nat) (h1 : x ≠ s) (h2 : x ≠ tmpSlot) :
+    (swapWithTmp c o r s).1.imgs x = r.1.imgs x := by
+  unfold swapWithTmp andThen
+  split
+  · cases hp : pSwap c r.1 s tmpSlot with
+    | mk w' out =>
+      have := pSwap_imgs_other c r.1 s tmpSlot x h1 h2
+      rw [hp] at this; simp only [] at this
+      cases out <;> simp [hp, pDtor_imgs, h2, this]
+  · rfl
+
+theorem pRelease_imgs_other (o : Org) (w : World) (s x : Nat) (h1 : x ≠ s) : (pRelease o w s).imgs x = w.imgs x := by
+  unfold pRelease
+  split
+  · simp [release_imgs, h1]
+  · rfl
+
+/-- a free slot that has no organisation (so no constructor can target it) and is not the scratch slot stays free -/
+theorem step_keeps_none (c : Cfg) (w : World) (op : Op) (x : Nat) (hx : c.orgOf x = none) (hxt : x ≠ tmpSlot) (h : w.imgs x = none) :
+    (step c w op).1.imgs x = none := by
+  cases op with
+  | dflt s t al =>
+    simp only [step]; split
+    next o ho hs => simp [ne_of_orgOf ho hx, h]
+    · exact h
+  | dims s t al W H v =>
+    simp only [step]; split
+    next o ho hs =>
+      have hne := ne_of_orgOf ho hx
+      have hc := (pCtor_imgs c o w s (Img.fresh al (c.tagOf t)) W H (List.replicate (W * H) 0) none).1 x hne
+      refine andThen_none _ _ x (by rw [hc]; exact h) ?_
+      intro _; simp only []; rw [userFill_imgs_other _ _ _ _ hne, hc]; exact h
+    · exact h
+  | fill s t al W H v =>
+    simp only [step]; split
+    next o ho hs => rw [(pCtor_imgs c o w s _ W H _ none).1 x (ne_of_orgOf ho hx)]; exact h
+    · exact h
+  | fillprobe s t al W H v =>
+    simp only [step]; split
+    next o ho hs =>
+      have hne := ne_of_orgOf ho hx
+      have hc := (pCtor_imgs c o w s (Img.fresh al (c.tagOf t)) W H (List.replicate (W * H) v) none).1 x hne
+      split
+      next w' heq =>
+        rw [heq] at hc; simp only [] at hc
+        simp only []; rw [userFill_imgs_other _ _ _ _ hne, hc]; exact h
+      next r hr => rw [hc]; exact h
+    · exact h
+  | fromview s t al s2 =>
+    simp only [step]; split
+    next o b ho hs hs2 =>
+      split
+      · rw [(pCtor_imgs c o w s _ b.w b.h b.pix _).1 x (ne_of_orgOf ho hx)]; exact h
+      · exact h
+    · exact h
+  | copy s s2 =>
+    simp only [step]; split
+    next o _ b ho _ hs hs2 =>
+      rw [(pCtor_imgs c o w s _ b.w b.h b.pix _).1 x (ne_of_orgOf ho hx)]; exact h
+    · exact h
+  | move s s2 =>
+    simp only [step]; split
+    next o b ho hs hs2 =>
+      split
+      · have hne2 : x ≠ s2 := by intro e; rw [e] at h; rw [h] at hs2; cases hs2
+        simp [ne_of_orgOf ho hx, hne2, h]
+      · exact h
+    · exact h
+  | assign s s2 =>
+    simp only [step]; split
+    next o _ ho _ =>
+      unfold stepAssign
+      split
+      next a b hs hs2 =>
+        split
+        · simp [ne_of_orgOf ho hx, h]
+        · rw [swapWithTmp_imgs_other _ _ _ _ _ (ne_of_orgOf ho hx) hxt, (pCtor_imgs c o w tmpSlot _ b.w b.h b.pix _).1 x hxt]; exact h
+      · exact h
+    · exact h
+  | massign s s2 =>
+    simp only [step]; split
+    next o ho =>
+      have hne := ne_of_orgOf ho hx
+      split
+      · unfold stepMoveAssign
+        split
+        next a b hs hs2 =>
+          have hne2 : x ≠ s2 := by intro e; rw [e] at h; rw [h] at hs2; cases hs2
+          split
+          · exact h
+          · split
+            · simp only []; rw [pAdopt_imgs_other _ _ _ _ _ _ hne hne2]; exact h
+            · split
+              · exact h
+              · split
+                · simp only []; rw [pAdopt_imgs_other _ _ _ _ _ _ hne hne2]; exact h
+                · split
+                  · have hc := (pCtor_imgs c o w tmpSlot (Img.fresh a.align a.tag) b.w b.h b.pix (some (b.w, b.h))).1 x hxt
+                    refine andThen_none _ _ x (by rw [hc]; exact h) ?_
+                    intro _
+                    simp only [pDtor_imgs, if_neg hxt]
+                    rw [pRelease_imgs_other _ _ _ _ hne2, pAdopt_imgs_other _ _ _ _ _ _ hne hxt, hc]; exact h
+                  · split
+                    · simp only []; rw [pTakeDims_imgs o w s s2 a b hs hs2]; simp [hne, hne2, h]
+                    · simp only []; rw [pRelease_imgs o s a hs]; simp [hne, h]
+        · exact h
+      · exact h
+    · exact h
+  | swap s s2 =>
+    simp only [step]; split
+    next o ho =>
+      split
+      next hc =>
+        by_cases e : x = s2
+        · subst e
+          cases hs : w.imgs s <;> simp [pSwap, hs, h]
+        · rw [pSwap_imgs_other c w s s2 x (ne_of_orgOf ho hx) e]; exact h
+      · exact h
+    · exact h
+  | recreate s W H al fill alloc v =>
+    simp only [step]; split
+    next o ho =>
+      have hne := ne_of_orgOf ho hx
+      unfold stepRec
+      split
+      · exact h
+      next i hs =>
+        simp only []
+        split
+        · split
+          · simp only []; rw [userFill_imgs_other _ _ _ _ hne]; exact h
+          · exact h
+        · have h1 : (w.setImg s (some { i with align := al })).imgs x = none := by simp [hne, h]
+          have inner : (if i.allocated ≥ o.needed al W H then pReuse o (w.setImg s (some { i with align := al })) s W H (List.replicate (W * H) (fill.getD 0))
+              else swapWithTmp c o (pCtor c o (w.setImg s (some { i with align := al })) tmpSlot (Img.fresh al (tmpTag c alloc)) W H (List.replicate (W * H) (fill.getD 0)) none) s).1.imgs x = none := by
+            split
+            · rw [pReuse_imgs_other _ _ _ _ _ _ _ hne]; exact h1
+            · rw [swapWithTmp_imgs_other _ _ _ _ _ hne hxt, (pCtor_imgs c o _ tmpSlot _ W H _ none).1 x hxt]; exact h1
+          refine andThen_none _ _ x inner ?_
+          intro _
+          split
+          · simp only []; rw [userFill_imgs_other _ _ _ _ hne]; exact inner
+          · exact inner
+    · exact h
+  | write s x' y v =>
+    simp only [step]; split
+    next o i ho hs =>
+      split
+      · simp [ne_of_orgOf ho hx, h]
+      · exact h
+    · exact h
+  | destroy s =>
+    simp only [step]; split
+    next o i ho hs => simp only []; rw [pDtor_imgs]; simp [ne_of_orgOf ho hx, h]
+    · exact h
+  | stop =>
+    simp only [step]
+    have : ∀ (l : List Nat) (w : World), w.imgs x = none →
+        (l.foldl (fun w s => match c.orgOf s with | some o => pDtor o w s | none => w) w).imgs x = none := by
+      intro l
+      induction l with
+      | nil => intro w hw; exact hw
+      | cons a l ih =>
+        intro w hw; simp only [List.foldl_cons]; apply ih
+        split
+        · rw [pDtor_imgs]; split <;> simp [hw]
+        · exact hw
+    exact this slots w h
+  | bad => exact h
+
+/-- every slot the configuration gives no organisation (the scratch slot of `image tmp` included) is free -/
+def OrgFree (c : Cfg) (w : World) : Prop := ∀ x, c.orgOf x = none → w.imgs x = none
+
+/-- did the run stop in an assertion failure?  (then the process is gone: no later operation, no destructor ran) -/
+def asserted (c : Cfg) (w : World) : List Op → Bool
+  | [] => false
+  | op :: rest =>
+    match step c w op with
+    | (_, .assertFail _) => true
+    | (w', _) => asserted c w' rest
+
+theorem step_orgfree (c : Cfg) (w : World) (op : Op) (h : OrgFree c w) :
+    (∃ x, (step c w op).2 = .assertFail x) ∨ OrgFree c (step c w op).1 := by
+  rcases step_tmpfree c w op (h tmpSlot (by simp [Cfg.orgOf, tmpSlot])) with ha | ht
+  · exact Or.inl ha
+  · right
+    intro x hx
+    by_cases e : x = tmpSlot
+    · subst e; exact ht
+    · exact step_keeps_none c w op x hx e (h x hx)
+
+/-- slots without an organisation are never occupied: from a world where they are free, after ANY history that did not stop in an assertion -/
+theorem run_orgfree (c : Cfg) (ops : List Op) : ∀ (w : World), OrgFree c w → asserted c w ops = false → OrgFree c (run c w ops) := by
+  induction ops with
+  | nil => intro w h _; exact h
+  | cons op rest ih =>
+    intro w h hna
+    have h1 := step_orgfree c w op h
+    unfold run
+    unfold asserted at hna
+    cases hs : step c w op with
+    | mk w' out =>
+      rw [hs] at h1 hna
+      cases out with
+      | assertFail x => simp at hna
+      | ok => exact ih w' (h1.resolve_left (by rintro ⟨x, e⟩; cases e)) hna
+      | badAlloc => exact ih w' (h1.resolve_left (by rintro ⟨x, e⟩; cases e)) hna
+      | ctorThrow => exact ih w' (h1.resolve_left (by rintro ⟨x, e⟩; cases e)) hna
+      | nocompile => exact ih w' (h1.resolve_left (by rintro ⟨x, e⟩; cases e)) hna
+      | skip => exact ih w' (h1.resolve_left (by rintro ⟨x, e⟩; cases e)) hna
+      | okFilled => exact ih w' (h1.resolve_left (by rintro ⟨x, e⟩; cases e)) hna
+      | okUnfilled => exact ih w' (h1.resolve_left (by rintro ⟨x, e⟩; cases e)) hna
+
+/-- a history followed by the end of all images: `run` of the extended history is the `stop` step after the run -/
+theorem run_snoc_stop (c : Cfg) (ops : List Op) : ∀ (w : World), asserted c w ops = false →
+    run c w (ops ++ [.stop]) = (step c (run c w ops) .stop).1 := by
+  induction ops with
+  | nil =>
+    intro w _
+    show run c w [.stop] = _
+    unfold run
+    cases hs : step c w .stop with
+    | mk w' out => cases out <;> simp [run]
+  | cons op rest ih =>
+    intro w hna
+    unfold asserted at hna
+    simp only [List.cons_append]
+    unfold run
+    cases hs : step c w op with
+    | mk w' out =>
+      rw [hs] at hna
+      cases out <;> first | (simp at hna; done) | exact ih w' hna
+
 end GilVerif.Lemmas.C10
